@@ -5,7 +5,7 @@
 (* on the simulated wire, callbacks), plus history variables kept here.         *)
 EXTENDS Naturals, Integers, Sequences, FiniteSets, TLC, Json
 CONSTANTS D, F, H,     \* disconnected / failed timeouts, transaction lifetime of the run (ms)
-          TraceFile, NatMap, Reach, LocA, Lite, CheckPrio, MaxReq,
+          TraceFile, NatMap, Reach, LocA, LocB, Lite, CheckPrio, MaxReq,
           Check        \* names of the predicates this run judges
 Tr == ndJsonDeserialize(TraceFile)
 Agents == {"A", "B"}
@@ -130,7 +130,7 @@ PrLess(x, y) == x[1] < y[1] \/ (x[1] = y[1] /\ (x[2] < y[2] \/ (x[2] = y[2] /\ x
 InSync(o) == o["A"].gen = o["B"].rgen /\ o["B"].gen = o["A"].rgen
 MirrorIn(o) == LET pa == PairOf(o, "A", o["A"].sel)  pb == PairOf(o, "B", o["B"].sel)
                IN NatMap[pa.l] = pb.r /\ NatMap[pb.l] = pa.r
-LocB == {x \in DOMAIN NatMap : x \in Rng(Tr[1].post["B"].locals)}
+\* LocB: B's local addresses (constant of the configuration)
 BothWays(la, lb) == <<NatMap[la], NatMap[lb]>> \in Reach /\ <<NatMap[lb], NatMap[la]>> \in Reach
 LocalsA == {x \in LocA : NatMap[x] # x \/ ~\E y \in LocA : NatMap[y] = x /\ y # x}
 HasPath == \E la \in LocalsA : \E lb \in LocB : BothWays(la, lb)
